@@ -166,6 +166,24 @@ def _writer_conserves(ck, writer, cluster):
     if not paths:
         raise AnalysisError(f"{writer.where}: write_indel_file has no complete path")
     pa = max(paths, key=lambda q: len(q.events))
+    # every complete path clusters both lists - a path that skips the clustering writes no call at all, so the condition it is
+    # taken under must say that there are none
+    for q in paths:
+        has_cluster = any(x[0] == "app" and x[1] == cluster.qualname for t, facts, node, kind in path_terms(q) for x in T.subterms(t))
+        if has_cluster:
+            continue
+        conds = [(c0, tv0, n0) for c0, tv0, n0 in q.state.assumptions]
+        shown = "; ".join(("" if tv0 else "not ") + T.show(c0)[:80] for c0, tv0, _ in conds[-3:])
+        one_empty_suffices = any((not tv0) and any(y[0] == "call" and y[1] == "all" for y in T.subterms(c0)) for c0, tv0, _ in conds)
+        nothing_found = any((not tv0) and any(y[0] == "call" and y[1] == "any" for y in T.subterms(c0)) for c0, tv0, _ in conds)
+        if one_empty_suffices:
+            ck.violation("C20.4", "write_indel_file:always-clustered", where(writer, conds[-1][2]),
+                         "the clustering and the writing of the calls are skipped as soon as *one* of the two lists is empty (`all(...)` "
+                         "where `any(...)` was meant): a run that found only deletions - or only insertions - writes the header alone",
+                         found="path without cluster_indels under: " + shown, required="both lists clustered on every path (an empty list clusters to nothing)")
+        elif not nothing_found:
+            raise AnalysisError(f"{writer.where}: a path through write_indel_file writes without clustering, under a condition that is not "
+                                f"understood: {shown or '<none>'}")
     calls = []
     seen_nodes = set()
     for t, facts, node, kind in path_terms(pa):
@@ -251,7 +269,6 @@ def run(ck):
     sv_fns = [f for f in p.nontest_functions() if f.module.name.startswith("sv.") and not f.is_lambda]
     c10.module_state(RuleView(ck, {"C10.1": "C20.6"}), fns=sv_fns, floor=15)
     cols, hnode = _header_columns(ck, writer)
-    _writer_conserves(ck, writer, cluster)
     ix = {c: i for i, c in enumerate(cols)}
     needed = ["Type", "Chromosome", "RefStart", "RefStop", "QueryId", "QueryStart", "QueryStop", "Length", "Count"]
     missing = [c for c in needed if c not in ix]
@@ -549,6 +566,7 @@ def run(ck):
         ck.judge(bool(good), "C20.3", f"write_indel_file:cluster-input@{calls_ok}", where(writer, node),
                  "cluster_indels receives the list sorted by (Chromosome, RefStop)", found=T.show(x)[:200])
     ck.floor("C20.3 cluster_indels call sites", calls_ok, 2)
+    _writer_conserves(ck, writer, cluster)      # (after the clustering rule: a violation there is reported even when the writer's anchors are gone)
 
 
 def _is_rec_plus_count(e: ast.expr) -> bool:
